@@ -22,6 +22,8 @@ func c10Text(prefix uint64, l int) string {
 	return sb.String()
 }
 
+type c10Kept struct{ got, exp []string }
+
 func init() {
 	register(&mon.Prop{
 		ID:    "C10",
@@ -36,7 +38,7 @@ func init() {
 			return []string{"release", "386"}
 		},
 		Exhaustive: nil,
-		Required:   []string{"cold-start/all-ones-path-first", "field/l=0", "field/l=h", "field/h=32", "field/h=0", "order/ancestor-descendant", "order/left-right-subtrees", "order/equal", "order/h>=13"},
+		Required:   []string{"cold-start/all-ones-path-first", "field/l=0", "field/l=h", "field/h=32", "field/h=0", "order/ancestor-descendant", "order/left-right-subtrees", "order/equal", "order/h>=13", "pathstr/retained-results-reread"},
 		Families: func(c *mon.Config) []mon.Family {
 			hp := c.Pick(8, 12)
 			return []mon.Family{
@@ -83,9 +85,32 @@ func c10CheckFields(w *mon.W, h, l int, prefix uint64) (uint64, bool) {
 		return p, false
 	}
 	w.Op = "PathStr"
-	if g, e := bmtree.PathStr(p), c10Text(prefix, l); g != e {
+	g, e := bmtree.PathStr(p), c10Text(prefix, l)
+	if g != e {
 		w.Fail("PathStr", d("PathStr", g, e))
 		return p, false
+	}
+	// a returned string is the caller's for good: this worker keeps its last 1024 results and re-reads them every
+	// 1024 calls (a string pointing into a buffer the library recycles reads differently later)
+	if l > 0 {
+		kept, _ := w.State["c10kept"].(*c10Kept)
+		if kept == nil {
+			kept = &c10Kept{}
+			w.State["c10kept"] = kept
+		}
+		kept.got = append(kept.got, g)
+		kept.exp = append(kept.exp, e)
+		if len(kept.got) >= 1024 {
+			for i := range kept.got {
+				if kept.got[i] != kept.exp[i] {
+					w.Fail("PathStr/earlier-result-changed-by-later-call", mon.D{"returned_then": kept.exp[i], "reads_now": kept.got[i], "calls_in_between": len(kept.got) - i})
+					kept.got, kept.exp = kept.got[:0], kept.exp[:0]
+					return p, false
+				}
+			}
+			kept.got, kept.exp = kept.got[:0], kept.exp[:0]
+			w.Bucket("pathstr/retained-results-reread")
+		}
 	}
 	w.Eval(6)
 	if l == 0 {
